@@ -14,27 +14,40 @@ L == INSTANCE HbLayout WITH UMAX <- 2147483647, IMAX <- 1073741823, GW <- W, BIT
 VARIABLE l
 ProbePos(start, j, mask) == (start + W * ((j * (j + 1)) \div 2)) % (mask + 1)
 
-RecOK(o) ==
-  CASE o.f = "c2b" -> L!C2B(o.a, o.size) = o.v /\ L!C2B(o.b, o.size) = o.v
-                      /\ L!BucketsOK(o.a, o.size) /\ L!BucketsOK(o.b, o.size)
+\* STRICT: the recorded value equals the specification's arithmetic (policy included)
+RecStrict(o) ==
+  CASE o.f = "c2b" -> L!C2B(o.a, o.size) = o.v /\ L!C2B(o.b, o.size) = o.v /\ (o.v # -1 => L!CapOfMask(o.v - 1) = o.cm)
     [] o.f = "cap" -> L!CapOfMask(o.mask) = o.v
     [] o.f = "lay" -> LET r == L!LayoutFor(o.size, L!CtrlAlignL(o.ea), o.buckets)
-                      IN /\ (r.ok <=> o.ok = 1)
-                         /\ (r.ok => r.len = o.len /\ r.off = o.off /\ o.align = L!CtrlAlignL(o.ea) /\ L!LayoutOK(o.size, o.ea, o.buckets))
+                      IN (r.ok <=> o.ok = 1) /\ (r.ok => r.len = o.len /\ r.off = o.off /\ o.align = L!CtrlAlignL(o.ea))
     [] o.f = "tl" -> o.tsize = o.size /\ o.ctrl_align = L!CtrlAlignL(o.ea)
-    [] o.f = "probe" -> /\ o.perm = 1
-                        /\ \A j \in 1..Len(o.ps) : o.ps[j] = ProbePos(o.start % (o.mask + 1), j - 1, o.mask)
+    [] o.f = "probe" -> \A j \in 1..Len(o.ps) : o.ps[j] = ProbePos(o.start % (o.mask + 1), j - 1, o.mask)
+    [] OTHER -> FALSE
+\* PROPERTY: what C17 states, whatever the load-factor / padding policy
+IsPow2L(x) == x \in L!Pows
+RecProp(o) ==
+  CASE o.f = "c2b" -> o.v = -1 \/ (IsPow2L(o.v) /\ o.cm >= o.b /\ o.cm < o.v)        \* capacity >= every request of the interval, < buckets
+    [] o.f = "cap" -> o.v <= o.mask /\ (o.mask > 0 => o.v < o.mask + 1)
+    [] o.f = "lay" -> o.ok = 1 =>
+                        /\ o.off >= o.size * o.buckets /\ o.off % o.align = 0 /\ o.off % o.ea = 0
+                        /\ o.len >= o.off + o.buckets + W /\ o.align >= o.ea /\ o.align >= W /\ IsPow2L(o.align)
+    [] o.f = "tl" -> o.tsize = o.size /\ o.ctrl_align >= o.ea /\ o.ctrl_align >= W
+    [] o.f = "probe" -> o.perm = 1                                                       \* every group exactly once
     [] OTHER -> FALSE
 
-Init == l = 1 /\ TLCSet(43, <<>>) /\ TLCSet(44, 0)
+Init == l = 1 /\ TLCSet(42, 0) /\ TLCSet(43, <<>>) /\ TLCSet(44, 0) /\ TLCSet(45, <<>>)
 Next == /\ l <= Len(Rec) /\ TLCGet(43) = <<>> /\ l' = l + 1
-        /\ IF RecOK(Rec[l]) THEN TLCSet(44, TLCGet(44) + 1) ELSE TLCSet(43, <<l, Rec[l].f>>)
+        /\ IF RecProp(Rec[l])
+           THEN /\ TLCSet(44, TLCGet(44) + 1)
+                /\ IF RecStrict(Rec[l]) THEN TRUE ELSE TLCSet(42, TLCGet(42) + 1) /\ (IF TLCGet(45) = <<>> THEN TLCSet(45, <<l, Rec[l].f>>) ELSE TRUE)
+           ELSE TLCSet(43, <<l, Rec[l].f>>)
 Spec == Init /\ [][Next]_l
 
 Accepted ==
   LET rej == TLCGet(43)
-      res == [steps |-> TLCGet(44), lines |-> Len(Rec), drift |-> 0, foreign |-> 0, firstdrift |-> <<>>, firstforeign |-> <<>>,
+      res == [steps |-> TLCGet(44), lines |-> Len(Rec), drift |-> TLCGet(42), foreign |-> 0,
+              firstdrift |-> IF TLCGet(45) = <<>> THEN <<>> ELSE <<ToString(TLCGet(45)[1]), TLCGet(45)[2]>>, firstforeign |-> <<>>,
               rejected |-> IF rej # <<>> THEN 1 ELSE 0, line |-> IF rej # <<>> THEN rej[1] ELSE Len(Rec) + 1,
-              reasons |-> IF rej # <<>> THEN <<"recorded " \o rej[2] \o " value differs from HbLayout">> ELSE <<>>]
+              reasons |-> IF rej # <<>> THEN <<"recorded " \o rej[2] \o " value violates the C17 statement">> ELSE <<>>]
   IN PrintT("HBVRESULT " \o ToJson(res)) /\ rej = <<>>
 =============================================================================
